@@ -12,6 +12,7 @@ import (
 	"strconv"
 	"strings"
 	"sync"
+	"testing/iotest"
 
 	"github.com/go-json-experiment/json"
 	"github.com/go-json-experiment/json/jsontext"
@@ -616,6 +617,18 @@ func litPaths(c LitCase, s string, wf bool) error {
 			return fmt.Errorf("Unmarshal(%q) into string allowInvalidUTF8=%v failed: %v", lit, o.AllowBad, err)
 		case decOK && str != s:
 			return fmt.Errorf("Unmarshal(%q) into string = %q; expected %q", lit, str, s)
+		}
+		// the same literal arriving one byte at a time: every escape is consumed
+		// in an earlier pass than the closing quote
+		var str1 string
+		err = json.UnmarshalRead(iotest.OneByteReader(bytes.NewReader(lit)), &str1, jsontext.AllowInvalidUTF8(o.AllowBad))
+		switch {
+		case !decOK && err == nil:
+			return fmt.Errorf("UnmarshalRead(one byte at a time, %q) into string succeeded (%q) although the literal is ill-formed and AllowInvalidUTF8 is off", lit, str1)
+		case decOK && err != nil:
+			return fmt.Errorf("UnmarshalRead(one byte at a time, %q) into string allowInvalidUTF8=%v failed: %v", lit, o.AllowBad, err)
+		case decOK && str1 != s:
+			return fmt.Errorf("UnmarshalRead(one byte at a time, %q) into string = %q; expected %q", lit, str1, s)
 		}
 		var m map[string]any
 		doc := append(append(append(append([]byte("{"), lit...), ':'), lit...), '}')
